@@ -213,7 +213,7 @@ PROPS = {
     "C11": {
         "clauses": ["C11"],
         "modes": [{"name": "srvconc", "harness": "srvconc", "modelcheck": "conc"},
-                  {"name": "fidlife", "harness": "fidlife", "modelcheck": "fidref"},
+                  {"name": "fidlife", "harness": "fidlife", "modelcheck": "fidref", "timeout": {"quick": 900, "thorough": 3000}},
                   {"name": "bystander", "harness": "bystander", "modelcheck": None},
                   {"name": "srvseq-random", "harness": "srvseq", "modelcheck": "srvseq", "args": ["random"]}],
         "rule": "bystander: a victim and a bystander connection on one server; the victim disconnects while the implementation's FidDestroy / ConnClosed callback blocks; the bystander's requests and a brand-new connection must be served meanwhile, and the victim is released completely afterwards. Fid life time: fids in several states (attached, walked, opened), then 0..4 requests (walks creating fids, attaches, clunks, removes, stats, in-place walks) held either before the framework processes them or inside the implementation, some released before and the rest after the disconnect in random order, answered with success or error; every fid object the library created must be reported destroyed exactly once when everything is quiet, and the library's fid schedule points (FidNew, FidGet lookup/increment, retain, unlink, DecRef, destroy, close snapshot; logged inside the library's own critical sections) are replayed through Srv/FidRef.v with the reported refcount and flags compared at every step. Also: replies piled up behind a blocked Write and at the hand-over to the send goroutine when the client disconnects (discslow), Tversion frames still buffered when a Write fails (discver). And: disconnect with 0..4 requests blocked in the implementation, some answered before and the rest after the disconnect in random orders (sync and async), Maxpend 0/1/4: the schedule-point trace is replayed through the LTS and every Respond invocation must have finished (no goroutine left inside Respond), ConnClosed exactly once; sequential histories ending in a disconnect: every fid still valid (per the abstract fid set) is destroyed exactly once at close, nothing else is. Non-trivial: >= 3 requests; distinct by content.",
